@@ -8,6 +8,7 @@ order — any permutation of the entries gives the same bytes, because they are 
 the handles in ascending order. (The executable model fixes ascending iteration everywhere else;
 the repetition check of C17 runs every scenario three times with fresh hash states.)
 -/
+import GgrsModel.Model.Inventory
 import GgrsModel.Model.P2P
 import GgrsModel.Model.SyncTest
 import GgrsModel.Proofs.Monad
